@@ -60,7 +60,9 @@ def make_case(ns, i, rng, tier):
         profile = {"include": 0.0, "insert": 0.0, "multi": 0.0, "n_stmts": (2, 12), "n_consts": (1, 6), "symbolic": 0.95}
     if tier == "thorough" and rng.random() < 0.4:
         profile = dict(profile, n_stmts=(10, 80), n_consts=(4, 20), n_labels=(0, 10))
-    return eb.generated_case(rng, profile)
+    # 10 % of the generated programs are FAILING ones (a range-checked operand out of range): the
+    # success/failure outcome must not depend on where the constant is defined either
+    return eb.generated_case(rng, dict(profile, range_slip=0.1))
 
 
 def diverges_fn(ns, ref_outcome_cache):
@@ -152,6 +154,8 @@ def run_one(ns, i, seed_i, tier):
     counters["probe:baseline_ok" if o0[0] == "ok" else ("probe:baseline_failed" if o0[0] == "failed" else "probe:baseline_crashed")] += 1
     if case.origin.startswith("practice"):
         counters["probe:practice_program"] += 1
+    if getattr(case, "range_slip", None):
+        counters["probe:range_slip_program"] = 1
     violations = front_back_violations(case, obs0, counters)
     nontrivial = []
     states = set()
